@@ -8,6 +8,56 @@ TRUSTED = ["analytic cable theory formulas in this file (sealed uniform cable: R
 ASSUMPTIONS = ["partial: units and temporal orders are theorems about the scalar scheme (C01 proves that the code computes the scheme); the spatial order is measured on refinement ladders, a limit statement that a run cannot prove"]
 
 
+def stability_cases(viol, rng, n_modules):
+    """the conclusions of C15_implicit_step_does_not_amplify and of the one-step error bound, evaluated on the code:
+    one implicit step of every jaxley backend on random cells / networks with random positive conductances,
+    vt >= 0 and dt up to 16: max |out| <= max |v + dt ct|, and two data sets differing by (dv, dct) give outputs
+    differing by at most max|dv| + dt max|dct|."""
+    import numpy as np
+    import jaxley as jx
+    import simlib
+    import hineslib
+    from fractions import Fraction as Fr
+    comp = jx.Compartment()
+    n = 0
+    for k in range(n_modules):
+        with simlib.quiet():
+            if k % 3 == 2:
+                cells = []
+                for _ in range(rng.randint(2, 3)):
+                    nb = rng.randint(1, 4)
+                    cells.append((simlib.rand_parents(rng, nb) if nb > 1 else [-1], [2] * nb))
+                m = jx.Network([jx.Cell([jx.Branch([comp] * c) for c in cs], parents=q) for q, cs in cells])
+                case = {"network_of": cells}
+            else:
+                nb = rng.randint(1, 6)
+                parents = simlib.rand_parents(rng, nb) if nb > 1 else [-1]
+                counts = [rng.randint(1, 4) for _ in range(nb)]
+                m = jx.Cell([jx.Branch([comp] * c) for c in counts], parents=parents)
+                case = {"parents": parents, "counts": counts}
+        st = hineslib.structure(m)
+        g, v0, vt, ct, dtq = hineslib.random_values(rng, st)
+        v1 = [a + Fr(rng.randint(-40, 40), 8) for a in v0]
+        ct1 = [a + Fr(rng.randint(-40, 40), 8) for a in ct]
+        for sv in ("jaxley.thomas", "jaxley.stone"):
+            try:
+                o0 = hineslib.run_real(m, st, g, v0, vt, ct, dtq, sv)
+                o1 = hineslib.run_real(m, st, g, v1, vt, ct1, dtq, sv)
+            except (AssertionError, NotImplementedError, ValueError):
+                continue
+            n += 1
+            K = max(abs(float(a + dtq * b)) for a, b in zip(v0, ct))
+            if max(abs(x) for x in o0) > K * (1 + 1e-9) + 1e-9:
+                viol.append(dict(case, kind="the implicit step amplifies in the maximum norm (max |out| > max |v + dt ct| with vt >= 0)", solver=sv,
+                                 bound=K, got=max(abs(x) for x in o0), dt=float(dtq)))
+            E = max(abs(float(a - b)) for a, b in zip(v0, v1)) + float(dtq) * max(abs(float(a - b)) for a, b in zip(ct, ct1))
+            d = max(abs(a - b) for a, b in zip(o0, o1))
+            if d > E * (1 + 1e-9) + 1e-9:
+                viol.append(dict(case, kind="two inputs closer than E give outputs further apart than E (one-step error bound max|dv| + dt max|dct|)", solver=sv,
+                                 bound=E, got=d, dt=float(dtq)))
+    return n
+
+
 def run(ctx):
     import numpy as np
     import jax.numpy as jnp
@@ -143,6 +193,11 @@ def run(ctx):
         except Exception as ex:
             import traceback
             viol.append(dict(case, kind="cable simulation raised", error=repr(ex)[:300], trace=traceback.format_exc()[-400:]))
+    try:
+        evals += stability_cases(viol, rng, ctx.budget(9, 60))
+    except Exception as ex:
+        import traceback
+        viol.append({"kind": "stability cases raised", "error": repr(ex)[:300], "trace": traceback.format_exc()[-500:]})
     for v in viol:
         v.setdefault("finding_class", None)
     return {"evaluations": evals, "distinct_nontrivial": len(distinct),
